@@ -468,6 +468,36 @@ def gen_run(rng, cfg, nsess=None, big_p=0.15, exotic_p=0.08, base_k=0):
     return {'cfg': cfg, 'ops': ops, 'logs': logs, 'snap': rng.random() < 0.5}
 
 
+def make_fault(rng, run):
+    """ONE injected OSError inside the append of a session record; the session is given up, the life goes on."""
+    ats = [i for i, o in enumerate(run['ops']) if o['op'] in ('eq', 'ep', 'et', 'ec')]
+    if ats:
+        run['fault'] = {'mode': 'fail', 'at': rng.choice(ats), 'nth': 0, 'rawwrite': rng.choice([1, 1, 1, 2, 3]),
+                        'prefix': rng.choice(['half', 'half', 'half', 'zero', 'open'])}
+    return run
+
+
+def make_killed(rng, run):
+    """The process dies INSIDE an append (forked child, os._exit from the raw write): mostly with size roll-over and
+    the log record, so that the append is to a numbered or the -meta file."""
+    cfg = run['cfg']
+    if rng.random() < 0.8:
+        cfg['max_size'] = rng.choice([0, 300, 1500])
+    if rng.random() < 0.7:
+        cfg['log'] = True
+        run['logs'] = run.get('logs') or ['log message killed']
+    ats = [i for i, o in enumerate(run['ops']) if o['op'] in ('eq', 'ep', 'et', 'ec', 'cs')]
+    if cfg['log'] and rng.random() < 0.5:
+        at, nth = 'close', rng.choice([0, 1]) if cfg['max_size'] is not None else 0
+    elif ats:
+        at, nth = rng.choice(ats), 0
+    else:
+        at, nth = 'close', 0
+    run['kill'] = {'mode': 'die', 'at': at, 'nth': nth, 'rawwrite': rng.choice([1, 1, 2]), 'prefix': rng.choice(['half', 'half', 'zero'])}
+    run.pop('die_after', None)
+    return run
+
+
 def make_abrupt(rng, run):
     """The life ends abruptly: the process dies (forked child, os._exit) after `die_after` events; close() never runs."""
     ends = [i + 1 for i, o in enumerate(run['ops']) if o['op'] in ('ep', 'et', 'cs')]
@@ -484,6 +514,8 @@ def gen_scenario(rng, **kw):
         run = gen_run(rng, gen_cfg(rng, appending=rng.random() < 0.15), **kw)
         if rng.random() < 0.15:
             make_abrupt(rng, run)
+        elif rng.random() < 0.25:
+            make_fault(rng, run)
         return {'runs': [run]}
     nlives = 2 if r < 0.9 else 3
     c1 = gen_cfg(rng, appending=rng.random() < 0.1)
@@ -493,6 +525,10 @@ def gen_scenario(rng, **kw):
         abrupt_before = rng.random() < 0.3
         if abrupt_before:
             make_abrupt(rng, runs[-1])
+            if rng.random() < 0.45:
+                make_killed(rng, runs[-1])
+        elif rng.random() < 0.25:
+            make_fault(rng, runs[-1])
         # after a crash the usual thing is to go on appending
         c = gen_cfg(rng, appending=rng.random() < (0.8 if abrupt_before else 0.5))
         # mostly the same naming scheme, so that the later life meets the earlier one's files
@@ -512,6 +548,8 @@ def gen_scenario(rng, **kw):
         prev = c
     if rng.random() < 0.1:
         make_abrupt(rng, runs[-1])
+    elif rng.random() < 0.2:
+        make_fault(rng, runs[-1])
     return {'runs': runs}
 
 
@@ -567,6 +605,93 @@ def fname_token(name, compress):
     return None
 
 
+class ArchiveFault:
+    """ONE fault inside ONE append of a life (C05: 'every file stays a sequence of complete records' also when an append
+    fails or the process dies in it).  While armed it counts the opens of an archive file for appending (= the
+    write_record calls); the `nth` one gets a raw file (io.FileIO subclass under the REAL io.BufferedWriter /
+    gzip.GzipFile, so a small record reaches the disk only at flush/close) whose `rawwrite`-th raw write
+      mode 'fail': prefix 'open' -> the open itself raises; 'zero' -> raises ENOSPC; 'half' -> short write, then ENOSPC
+      mode 'die' : writes the prefix ('half' / 'zero'), then calls die_hook (the forked child pickles its state, os._exit).
+    Installed as `open` of wpull.warc.recorder's namespace and as gzip's view of builtins.open."""
+
+    def __init__(self, directory, spec, die_hook=None):
+        self.directory = directory
+        self.spec = spec
+        self.die_hook = die_hook
+        self.armed = False
+        self.opens = 0
+        self.fired = False
+        self.saved = None
+
+    def is_archive(self, path):
+        try:
+            d, base = os.path.split(os.fspath(path))
+        except TypeError:
+            return False
+        return d == self.directory and (base.endswith('.warc') or base.endswith('.warc.gz'))
+
+    def open(self, file, mode='r', *args, **kw):
+        import builtins
+        import io
+        if not (self.armed and not self.fired and mode == 'ab' and self.is_archive(file)):
+            return builtins.open(file, mode, *args, **kw)
+        self.opens += 1
+        if self.opens - 1 != self.spec.get('nth', 0):
+            return builtins.open(file, mode, *args, **kw)
+        if self.spec['prefix'] == 'open' and self.spec['mode'] == 'fail':
+            self.fired = True
+            raise OSError(28, 'injected: no space left on device (open)')
+        fault = self
+
+        class FaultyFileIO(io.FileIO):
+            writes = 0
+            full = False
+
+            def write(self, b):
+                if self.full:
+                    raise OSError(28, 'injected: no space left on device')
+                self.writes += 1
+                if self.writes != fault.spec.get('rawwrite', 1):
+                    return super().write(b)
+                fault.fired = True
+                b = bytes(b)
+                if fault.spec['mode'] == 'die':
+                    if fault.spec['prefix'] == 'half' and b:
+                        super().write(b[:max(1, len(b) // 2)])
+                    fault.die_hook()
+                self.full = True
+                if fault.spec['prefix'] == 'half' and len(b) > 1:
+                    return super().write(b[:len(b) // 2])       # short write; the retry gets ENOSPC
+                raise OSError(28, 'injected: no space left on device')
+        return io.BufferedWriter(FaultyFileIO(file, 'ab'), io.DEFAULT_BUFFER_SIZE)
+
+    def install(self):
+        import builtins
+        import gzip
+        import wpull.warc.recorder as recmod
+        fault = self
+
+        class BuiltinsProxy:
+            def __getattr__(self, name):
+                return getattr(builtins, name)
+            open = staticmethod(fault.open)
+        self.saved = (recmod.__dict__.get('open'), gzip.builtins)
+        recmod.open = self.open
+        gzip.builtins = BuiltinsProxy()
+
+    def uninstall(self):
+        import gzip
+        import wpull.warc.recorder as recmod
+        if self.saved is None:
+            return
+        if self.saved[0] is None:
+            recmod.__dict__.pop('open', None)
+        else:
+            recmod.open = self.saved[0]
+        gzip.builtins = self.saved[1]
+        self.saved = None
+
+
 _KEEPALIVE = []      # objects of an abandoned life: nothing may be finalised (flushed) before os._exit
 
 
@@ -618,7 +743,7 @@ def run_real_life_forked(directory, run, seed):
         if pid == 0:
             code = 3
             try:
-                obs = run_real_life(directory, run, seed, die=True)
+                obs = run_real_life(directory, run, seed, die=True, side=side)
                 with open(side, 'wb') as f:
                     pickle.dump(obs, f)
                 code = 0
@@ -643,11 +768,18 @@ def run_real_life_forked(directory, run, seed):
         with open(os.path.join(directory, n), 'rb') as f:
             after[n] = f.read()
     obs['after'] = after
-    obs['abandoned'] = True
+    obs['abandoned'] = not obs.get('completed', False)
+    # a kill inside an append leaves the journal of that append: offset = length of the complete part of the file
+    obs['torn'] = {}
+    for n, data in after.items():
+        if n.endswith('-wpullinc'):
+            m = re.search(rb'offset:(\d+)', data)
+            if m:
+                obs['torn'][n[:-len('-wpullinc')]] = int(m.group(1))
     return obs
 
 
-def run_real_life(directory, run, seed, die=False):
+def run_real_life(directory, run, seed, die=False, side=None):
     """One life of the real recorder in `directory`.  Returns the observation dict.
     die=True (only in a forked child): stop after run['die_after'] events without close()."""
     from wpull.warc.recorder import WARCRecorder, WARCRecorderParams
@@ -678,13 +810,40 @@ def run_real_life(directory, run, seed, die=False):
     raised = None
     snap_c05, snap_c07 = [], []
     die_after = run.get('die_after') if die else None
+    dead_slots = set()
+    software = cfg['software']
+    spec = run.get('kill') if die else run.get('fault')
+    fault = None
+    if spec:
+        def die_hook():
+            import pickle
+            _KEEPALIVE.append((slots, table))
+            with open(side, 'wb') as f:
+                pickle.dump({'cfg': cfg, 'before': before, 'after': {}, 'created': created, 'meta': meta,
+                             'model_ops': model_ops, 'software': software, 'raised': None,
+                             'snap_c05': snap_c05, 'snap_c07': snap_c07, 'killed_in_append': True}, f)
+            os._exit(0)
+        fault = ArchiveFault(directory, spec, die_hook if die else None)
+        fault.install()
+    if any(n.endswith('-wpullinc') for n in before):
+        journal_present = True
+    else:
+        journal_present = False
     try:
         params = WARCRecorderParams(
             compress=cfg['compress'], extra_fields=[tuple(x) for x in cfg['extra']] or None, temp_dir=directory,
             log=cfg['log'], appending=cfg['appending'], digests=cfg['digests'], cdx=cfg['cdx'],
             max_size=cfg['max_size'], url_table=table, software_string=cfg['software'])
-        rec = WARCRecorder(os.path.join(directory, PREFIX), params=params)
         software = cfg['software'] or WARCRecorder.DEFAULT_SOFTWARE_STRING
+        try:
+            rec = WARCRecorder(os.path.join(directory, PREFIX), params=params)
+        except OSError as e:
+            if journal_present and 'incomplete' in str(e):
+                # the journal of an append that was cut short is there: the recorder refuses to start (C06)
+                return {'cfg': cfg, 'before': before, 'after': dict(before), 'created': created, 'meta': meta,
+                        'model_ops': model_ops, 'software': software, 'raised': None, 'refused': True,
+                        'snap_c05': [], 'snap_c07': []}
+            raise
         logs = list(run.get('logs', []))
         for op_index, op in enumerate(run['ops'] + [{'op': 'close', 'k': None}]):
           try:
@@ -695,9 +854,14 @@ def run_real_life(directory, run, seed, die=False):
                   return {'cfg': cfg, 'before': before, 'after': {}, 'created': created, 'meta': meta,
                           'model_ops': model_ops, 'software': software, 'raised': None,
                           'snap_c05': snap_c05, 'snap_c07': snap_c07}
+              if fault is not None:
+                  fault.armed = (spec['at'] == ('close' if o == 'close' else op_index))
+                  fault.opens = 0
               if o == 'close':
                   rec.close()
                   break
+              if k in dead_slots:
+                  continue       # the session that met the fault was given up
               if logs and o in ('bq', 'bc'):
                   logging.getLogger('wpull.verif').info(logs.pop(0))
               if o == 'bq':
@@ -794,6 +958,18 @@ def run_real_life(directory, run, seed, die=False):
                   snap_c07 += [(x[0], x[1], x[2] + ' after event %d (%s)' % (op_index, o)) for x in b]
           except Infra:
               raise
+          except OSError as e:
+              if fault is not None and fault.fired and fault.armed and 'injected' in str(e) and spec['mode'] == 'fail':
+                  # the injected fault came out of the event method as an OSError: give the session up, go on
+                  dead_slots.add(op['k'])
+                  fault.armed = False
+                  continue
+              import traceback
+              tb = traceback.extract_tb(e.__traceback__)
+              frames = [f for f in tb if '/wpull/' in f.filename]
+              raised = {'type': type(e).__name__, 'where': frames[-1].name if frames else 'recorder', 'op': op['op'],
+                        'index': op_index, 'text': str(e)[:200]}
+              break
           except Exception as e:
               # these lives inject no fault: nothing may leave the recorder's API
               import traceback
@@ -804,6 +980,8 @@ def run_real_life(directory, run, seed, die=False):
               break
     finally:
         uuid_mod.uuid4 = real_uuid4
+        if fault is not None:
+            fault.uninstall()
         for h in list(root.handlers):
             if h not in old_handlers:
                 root.removeHandler(h)
@@ -814,7 +992,8 @@ def run_real_life(directory, run, seed, die=False):
             after[n] = f.read()
     return {'cfg': cfg, 'before': before, 'after': after, 'created': created, 'meta': meta,
             'model_ops': model_ops, 'software': software, 'raised': raised,
-            'snap_c05': snap_c05, 'snap_c07': snap_c07}
+            'snap_c05': snap_c05, 'snap_c07': snap_c07, 'completed': raised is None,
+            'fault_fired': bool(fault and fault.fired)}
 
 
 def parse_life(obs):
@@ -823,10 +1002,14 @@ def parse_life(obs):
     cfg = obs['cfg']
     problems = []
     by_file = {}
+    torn = obs.get('torn') or {}
     for name, data in obs['after'].items():
         tok = fname_token(name, cfg['compress'])
         if tok is None:
             continue
+        if name in torn:
+            # the process died inside an append to this file: its journal says where the complete part ends
+            data = data[:torn[name]]
         old = obs['before'].get(name)
         start = 0
         if old is not None and cfg['appending']:
@@ -840,6 +1023,17 @@ def parse_life(obs):
         except Invalid as e:
             problems.append(('invalid-record-sequence', 'WARCRecord.__iter__', 'file %s: %s' % (name, e)))
             by_file[name] = (start, [])
+        if start and len(data) > start:
+            # this life appended to a file it found: the WHOLE file must still be a sequence of complete records
+            try:
+                read_warc_file(name, data, cfg['compress'], 0)
+            except Invalid as e:
+                had_journal = (name + '-wpullinc') in obs['before']
+                problems.append(('appended-behind-incomplete-record',
+                                 '_check_journals_and_maybe_raise' if had_journal else 'write_record',
+                                 'file %s: this life appended %d bytes behind the %d it found%s, the file as a whole is not a '
+                                 'sequence of complete records: %s' % (name, len(data) - start, start,
+                                 ' (the journal of an unfinished append was present)' if had_journal else '', e)))
     return by_file, problems
 
 
@@ -1297,7 +1491,7 @@ def run_scenario(scn, seed='s'):
         all_ids = {}
         expectations = {}
         for li, run in enumerate(scn['runs']):
-            if run.get('die_after') is not None:
+            if run.get('die_after') is not None or run.get('kill'):
                 obs = run_real_life_forked(directory, run, '%s/%d' % (seed, li))
             else:
                 obs = run_real_life(directory, run, '%s/%d' % (seed, li))
@@ -1310,6 +1504,9 @@ def run_scenario(scn, seed='s'):
                 out.c05.append(f)
                 out.c07.append(f)
                 break
+            if obs.get('refused'):
+                out.tags.append('life:refused-journal-present')
+                break
             by_file, problems = parse_life(obs)
             fails, all_ids = oracle_c05(obs, by_file, problems, all_ids)
             out.c05 += fails
@@ -1319,10 +1516,19 @@ def run_scenario(scn, seed='s'):
             if obs.get('abandoned') and obs['cfg']['cdx']:
                 # the process died without close(): what is on disk must already be consistent
                 out.c07 += cdx_behind_archive(obs['cfg'], obs['before'], obs['after'], by_file,
-                                              'after the process died following event %d, close() never ran' % run['die_after'])
+                                              ('after the process died following event %d, close() never ran' % run['die_after'])
+                                              if run.get('die_after') is not None else
+                                              'after the process died inside an append (%r), close() never ran' % (run.get('kill'),))
             out.c07 += oracle_c07(obs, by_file, obs['after'], expectations)
-            out.requests.append(model_request(obs, by_file))
-            out.lives.append((obs, by_file, real_canonical(obs, by_file)))
+            if obs.get('killed_in_append'):
+                out.tags.append('life:killed-in-append:%s' % ','.join(sorted(fname_token(n, obs['cfg']['compress']) .rstrip('0123456789') or 'main'
+                                                                               for n in obs.get('torn', {})) or 'no-journal'))
+            else:
+                # (a life killed inside an append is judged by the oracles only: its torn tail is C06's subject)
+                out.requests.append(model_request(obs, by_file))
+                out.lives.append((obs, by_file, real_canonical(obs, by_file)))
+            if obs.get('fault_fired'):
+                out.tags.append('life:append-fault:%s' % run['fault']['prefix'])
             cfg = obs['cfg']
             nrec = sum(len(v[1]) for v in by_file.values())
             out.tags += ['cfg:gz' if cfg['compress'] else 'cfg:plain',
@@ -1334,6 +1540,8 @@ def run_scenario(scn, seed='s'):
                          'files:%d' % min(len(by_file), 5), 'records:%s' % ('1-5' if nrec <= 5 else '6-20' if nrec <= 20 else '21+')]
             if obs.get('abandoned'):
                 out.tags.append('life:abandoned')
+            if li > 0 and any(n.endswith('-wpullinc') for n in obs['before']):
+                out.tags.append('life:started-despite-journal')
             if li > 0 and scn['runs'][li - 1].get('die_after') is not None:
                 out.tags.append('life:after-abandoned:%s' % ('append' if cfg['appending'] else 'startover'))
             if run.get('snap'):
